@@ -286,16 +286,23 @@ theorem C11_previous_counterexample (fuel : Nat) (rq : Reqs) (e : Env) (maxv : S
   ⟨previousD13_fixpoint e p hp hloc, stepDown_D13_spins fuel rq e maxv p hp hloc st hex hadded n⟩
 
 /-- C11, queries by ref: what `resolveRefQuery` (modelled over an abstract commit history: refs, revisions, the order
-`History()` walks ancestors, the tagged revisions) resolves to is a version of the queried project; it is the tag itself
-when the closest tagged ancestor is the revision the ref names; otherwise it sorts strictly ABOVE the closest tagged
-ancestor's version — asking for a revision that descends from a tag is never a step below that tag. -/
+`History()` walks ancestors, the tagged revisions — several tags may sit on one revision) resolves to is a version of the
+queried project. Let `t` be the tag the search stops at: the tag of the CLOSEST tagged ancestor (the first revision in
+history order that carries a tag of the project's major line) and, among the tags of that revision, the GREATEST version
+(`repo.Versions()` is sorted by version; the code takes the last match). Then the answer is `t` itself when that ancestor
+is the revision the ref names, and otherwise sorts strictly ABOVE `t` — asking for a revision that descends from a tag is
+never a step below that tag, and a commit tagged v1.0.0-rc.1 and v1.0.0 is v1.0.0. -/
 theorem C11_ref_resolution (h : History) (major path ref revId : String) (rev : Revision) (m : Mod)
+    (hsorted : h.tagRevs.Pairwise fun a b => Ver.le a.1.ver b.1.ver)
     (href : h.refs ref = some revId) (hrev : h.revision revId = some rev)
     (hres : resolveRefQuery h major path ref = .ok m) :
     m.path = path ∧
     ∀ t tr, closestTag h major path (h.ancestors revId) = some (t, tr) →
-      (tr = rev.id → m = t) ∧ (tr ≠ rev.id → ∀ s, t.ver = .sv s → cmpVersion t.ver m.ver = .lt) :=
-  resolveRefQuery_spec href hrev hres
+      (∀ t' ∈ h.tagRevs, t'.1.path = path → majorVersionMatch major t'.1.ver = true → t'.2 = tr → Ver.le t'.1.ver t.ver) ∧
+      (tr = rev.id → m = t) ∧ (tr ≠ rev.id → ∀ s, t.ver = .sv s → cmpVersion t.ver m.ver = .lt) := by
+  obtain ⟨h1, h2⟩ := resolveRefQuery_spec href hrev hres
+  refine ⟨h1, fun t tr ht => ⟨?_, h2 t tr ht⟩⟩
+  exact closestTag_greatest hsorted ht
 
 /-! ### total correctness: fuel sufficiency in finite universes (the C11 counterpart of `C10_fuel`)
 
@@ -472,6 +479,15 @@ def hist33 : History :=
 /-- hypotheses of `C11_ref_resolution`: the branch ahead of the newest tag resolves above it, the branch at the tag to the tag -/
 example : resolveRefQuery hist33 "" P0 "main" = .ok ⟨P0, .sv ⟨1, 4, 1, [.num 0, .str "19700101000500-3".toList]⟩⟩ := by rfl
 example : resolveRefQuery hist33 "" P0 "rel" = .ok ⟨P0, v 1 4 0⟩ := by rfl
+
+/-- two tags of one project on one commit (v1.0.0-rc.1 and v1.0.0 on commit 2, listed in version order): the greatest wins -/
+def hist2 : History :=
+  { refs := fun r => if r = "rel" then some "2" else .none
+    revision := fun id => some ⟨id, "19700101000320", id⟩
+    ancestors := fun id => if id = "2" then ["2", "1"] else ["1"]
+    tagRevs := [(⟨P0, .sv ⟨0, 9, 0, []⟩⟩, "2"), (⟨P0, .sv ⟨1, 0, 0, [.str "rc".toList, .num 1]⟩⟩, "2"), (⟨P0, v 1 0 0⟩, "2")] }
+example : resolveRefQuery hist2 "" P0 "rel" = .ok ⟨P0, v 1 0 0⟩ := by rfl
+example : hist2.tagRevs.Pairwise fun a b => Ver.le a.1.ver b.1.ver := by decide
 
 /-- D33 (fixed; regression witness): the search that did not stop at the first tagged ancestor based the pseudo-version
 on the OLDEST tag — below the tag the revision descends from — and did not recognise a tagged revision -/
